@@ -101,8 +101,16 @@ def shp(a):
     return tuple(int(x) for x in np.shape(a))
 
 
-def data_tensor(shape, seed, positive=False):
+def data_tensor(shape, seed, positive=False, kind="normal"):
     r = np.random.RandomState(seed)
+    if kind == "zero":
+        return np.zeros(shape)
+    if kind == "lowrank":            # exactly rank one (degenerate singular values in every unfolding), integer entries
+        x = np.ones(shape)
+        for k, d in enumerate(shape):
+            v = r.randint(1, 4, size=d).astype(float)
+            x = x * v.reshape([-1 if j == k else 1 for j in range(len(shape))])
+        return x
     x = r.random_sample(shape) + 0.1 if positive else r.standard_normal(shape)
     return x
 
@@ -142,7 +150,7 @@ def run_decomp(kind, shape, spec, seed, **kw):
         out = coupled_matrix_tensor_3d_factorization(X, Y, spec, n_iter_max=kw.get("n_iter_max", 2))
         t, mp, _ = out
         return [shp(t.weights)] + [shp(f) for f in t.factors] + [shp(mp.weights)] + [shp(f) for f in mp.factors], out
-    X = data_tensor(shape, seed, positive=kw.get("positive", False))
+    X = data_tensor(shape, seed, positive=kw.get("positive", False), kind=kw.get("data", "normal"))
     if kind == "DTt":
         out = D.tensor_train(X, spec)
         return [shp(f) for f in out.factors] + [tuple(out.shape), tuple(int(r) for r in out.rank)], out
@@ -248,6 +256,13 @@ def gen_cases(tier, rng):
         for sp in tk_specs:
             for init, nit in (("svd", 0), ("svd", 2), ("random", 1)) + ((("random", 0),) if not quick else ()):
                 yield dict(kind="DTucker", shape=s, spec=sp, kw=dict(init=init, n_iter_max=nit))
+        for data in ("lowrank", "zero"):
+            if quick and rng.random() < 0.5:
+                continue
+            yield dict(kind="DTt", shape=s, spec=rng.choice([1, 2, 3]), kw=dict(data=data))
+            yield dict(kind="DTr", shape=s, spec=1, kw=dict(mode=rng.randrange(n), data=data))
+            yield dict(kind="DTucker", shape=s, spec=rng.choice([1, 2, 3]), kw=dict(init="svd", n_iter_max=2, data=data))
+        yield dict(kind="DTucker", shape=s, spec=rng.choice([1, 2, 3]), kw=dict(init=rng.choice(["svd", "random"]), n_iter_max=6, tol=1e10))
         if n >= 3 or not quick:
             for sp in [1, 2, 4, "same", 0.5]:
                 for fn in ("parafac", "non_negative_parafac", "non_negative_parafac_hals"):
@@ -497,7 +512,7 @@ def pred_structure(case, shapes, out):
             return "CMTF: tensor part and matrix part do not share the rank / first mode", "C08_cmtf_shapes"
     if kind == "DTucker":
         core, factors = out
-        X = data_tensor(s, case["seed"])
+        X = data_tensor(s, case["seed"], kind=kw.get("data", "normal"))
         import tensorly.tucker_tensor as tkm
         req = tkm.validate_tucker_rank(tuple(s), list(spec) if isinstance(spec, tuple) else spec)
         svd_like = not (kw["init"] == "random" and kw["n_iter_max"] == 0)
@@ -697,6 +712,8 @@ def pred_norm2(nc, res):
         return None
     if fn == "parafac2":
         w, fs, _ = out
+        if not (np.all(np.isfinite(w)) and all(np.all(np.isfinite(f)) for f in fs)):
+            return "non-finite output", "C08_norm_finite"
         if nf:
             m = _unit_columns(fs, lambda k, c: w[c] == 0)
             if m:
@@ -705,6 +722,8 @@ def pred_norm2(nc, res):
             return f"weights {np.asarray(w).tolist()} are not all ones (normalize_factors=False)", "C08_norm_weights_ones"
         return None
     t, mp, _ = out
+    if not all(np.all(np.isfinite(x)) for cp in (t, mp) for x in [cp.weights] + list(cp.factors)):
+        return "non-finite output", "C08_norm_finite"
     if nf:
         for cp in (t, mp):
             m = _unit_columns(cp.factors, lambda k, c, cp=cp: cp.weights[c] == 0)
@@ -768,20 +787,6 @@ def norm2_case_lit(cid, nc, res):
     op = f"(DNorm2 {FN2[nc['fn']]} {C.boolc(nc['normalize_factors'])} {C.boolc(bool(tol))} {C.nat(n)} {dl})"
     exp = f"(Ok [[{sweeps}]%nat; [{1 if res['ends_norm'] else 0}]%nat; [{1 if res['n_norm'] else 0}]%nat])"
     return f"({cid}%N, {op}, {exp})"
-
-
-def clf_nn_tucker_convergence_exit(f):
-    """non_negative_tucker(_hals), normalize_factors=True: the convergence break precedes tucker_normalize"""
-    i = f["inputs"]
-    return i.get("fn") in ("non_negative_tucker", "non_negative_tucker_hals") and i.get("normalize_factors") is True and \
-        i.get("exit") == "convergence"
-
-
-def clf_cap0_not_normalised(f):
-    """non_negative_tucker(_hals) / parafac2, normalize_factors=True, n_iter_max=0: the initialisation is returned as it is"""
-    i = f["inputs"]
-    return i.get("fn") in ("non_negative_tucker", "non_negative_tucker_hals", "parafac2") and i.get("normalize_factors") is True and \
-        i.get("n_iter_max") == 0
 
 
 def cp_full(w, fs):
@@ -850,6 +855,8 @@ def pred_cp_normalize(cc, st, out, before):
     w, fs = out
     if [f.shape for f in fs] != [(d, cc["rank"]) for d in cc["shape"]] or np.shape(w) != (cc["rank"],):
         return f"shapes changed: {[f.shape for f in fs]}", "C08_cp_normalize_shapes"
+    if not (np.all(np.isfinite(w)) and all(np.all(np.isfinite(f)) for f in fs)):
+        return "non-finite output (a zero column must stay zero, its scale is taken as 1)", "C08_cp_normalize_unit_columns"
     for k, f in enumerate(fs):
         for c, v in enumerate(np.linalg.norm(f, axis=0)):
             if abs(v - 1) > 1e-12 and not (v == 0 and w[c] == 0):
@@ -885,6 +892,8 @@ def pred_tucker_normalize(cc, st, out, before, ranks):
     core, fs = out
     if [f.shape for f in fs] != [(d, k) for d, k in zip(cc["shape"], ranks)] or tuple(core.shape) != tuple(ranks):
         return f"shapes changed: {[f.shape for f in fs]}, core {core.shape}", "C08_tucker_normalize_shapes"
+    if not (np.all(np.isfinite(core)) and all(np.all(np.isfinite(f)) for f in fs)):
+        return "non-finite output (a zero column must stay zero, its scale is taken as 1)", "C08_tucker_normalize_unit_columns"
     for k, f in enumerate(fs):
         for c, v in enumerate(np.linalg.norm(f, axis=0)):
             if abs(v - 1) > 1e-12 and v != 0:
@@ -965,7 +974,7 @@ def norm_cases(tier, rng):
     optsets = [("parafac", dict(orthogonalise=True)), ("parafac", dict(orthogonalise=2)), ("parafac", dict(linesearch=True)),
                ("parafac", dict(l2_reg=0.1)), ("parafac", dict(mask=True)), ("parafac", dict(linesearch=True, orthogonalise=True, l2_reg=0.01)),
                ("non_negative_parafac", dict(mask=True)), ("non_negative_parafac_hals", dict(nn_modes=[0])),
-               ("non_negative_parafac_hals", dict(exact=True)), ("non_negative_parafac_hals", dict(sparsity_coefficients=[0.05, None, 0.05]))]
+               ("non_negative_parafac_hals", dict(sparsity_coefficients=[0.05, None, 0.05]))]     # (exact=True costs ~20 s per run)
     for fn, opts in optsets:
         for init in ("random", "user") if quick else ("random", "svd", "user"):
             for nf in (True, False):
@@ -995,10 +1004,10 @@ def _all_fixed(i):
     return i.get("fn") == "parafac" and list(i.get("fixed") or []) == list(range(len(i.get("shape", []))))
 
 
-# the earlier classes "user initialisation and no sweep", "callback stop" of the CP drivers were repaired by 3de556b and are
-# kept as corpus inputs (corpus/C08/normalisation_exits.json); the classifiers of the present known findings are defined
-# next to the predicates of the Tucker / PARAFAC2 drivers above
-CLASSIFIERS = {"nn_tucker_convergence_exit": clf_nn_tucker_convergence_exit, "cap0_not_normalised": clf_cap0_not_normalised}
+# no known finding at present: the classes "user initialisation and no sweep", "callback stop" of the CP drivers (repaired by
+# 3de556b) and "convergence exit" / "cap 0" of non_negative_tucker(_hals) / parafac2 (repaired by 1c1a684) are kept as corpus
+# inputs (corpus/C08/normalisation_exits.json)
+CLASSIFIERS = {}
 
 
 def _install_known_loader():
@@ -1111,7 +1120,7 @@ def _run(chk, rng):
             chk.finding(f"tensorly.decomposition.{nc['fn']}", inputs, msg, pred,
                         observed=None if res["st"] != "ok" else {"weights": out.weights, "column_norms": [np.linalg.norm(f, axis=0) for f in out.factors]})
     # ---- the same contract for non_negative_tucker(_hals) (scale in the core), parafac2 and CMTF
-    for nc in norm2_cases(tier, rng):
+    for nc in corpus_norm_cases("norm2_cases") + list(norm2_cases(tier, rng)):
         res = run_norm2_case(nc)
         if res["st"] != "ok" and str(res["out"]) == "timeout":
             timeouts += 1
@@ -1197,7 +1206,7 @@ def _run(chk, rng):
     return chk.finish(CLASSIFIERS)
 
 
-def corpus_norm_cases():
+def corpus_norm_cases(which="norm_cases"):
     """minimised past failing inputs (corpus/C08/*.json), run first"""
     import glob, json, os
     out = []
@@ -1206,9 +1215,13 @@ def corpus_norm_cases():
             d = json.load(open(fn))
         except Exception:
             continue
-        for nc in d.get("norm_cases", []):
-            nc = dict(nc); nc["shape"] = tuple(nc["shape"])
-            nc.setdefault("cb_stop", None); nc.setdefault("fixed", None); nc.setdefault("callback", False)
+        for nc in d.get(which, []):
+            nc = dict(nc)
+            nc["shape"] = tuple(tuple(x) if isinstance(x, list) else x for x in nc["shape"])
+            if isinstance(nc["rank"], list):
+                nc["rank"] = tuple(nc["rank"])
+            if which == "norm_cases":
+                nc.setdefault("cb_stop", None); nc.setdefault("fixed", None); nc.setdefault("callback", False)
             out.append(nc)
     return out
 
